@@ -35,6 +35,7 @@ func impl(in hv.Val) hv.Val {
 // The generator tracks its own shadow of the tree only to bias choices (descendants, siblings, closed ids).
 func gen(r *hv.Rng, i int, tier string) (string, hv.Val) {
 	maxStreams := r.Range(2, 10)
+	initN := r.Range(2, 5)
 	nops := r.Range(3, 36)
 	var ids, open, closed []int
 	parent := map[int]int{}
@@ -52,7 +53,7 @@ func gen(r *hv.Rng, i int, tier string) (string, hv.Val) {
 	for len(ops) < nops {
 		k := r.Intn(10)
 		switch {
-		case len(ids) < 2 || (k == 0 && len(ids) < maxStreams):
+		case len(ids) < initN || (k <= 1 && len(ids) < maxStreams):
 			id := next
 			next += 1 + r.Intn(3)
 			ids = append(ids, id)
@@ -63,7 +64,7 @@ func gen(r *hv.Rng, i int, tier string) (string, hv.Val) {
 				ex := r.Chance(1, 3)
 				ops = append(ops, hv.L{hv.I(3), hv.I(id), hv.I(dep), hv.I(r.Intn(256)), hv.Bool(ex)})
 			}
-		case k == 1 && len(open) > 1:
+		case k == 2 && len(open) > 1:
 			j := r.Intn(len(open))
 			id := open[j]
 			open = append(open[:j:j], open[j+1:]...)
